@@ -367,7 +367,11 @@ def render_foreign(spec, choices, ascii_only=True) -> str:
     ch = Chooser(choices)
     decl = ["", '<?xml version="1.0"?>\n', "<?xml version='1.0' encoding='UTF-8'?>", '<?xml version="1.0"?>'][ch.next(4)]
     indent = ch.next(4)
-    return decl + _element(spec["kind"], spec["attrs"], spec.get("text"), spec.get("children", []), ch, indent, ascii_only)
+    body = _element(spec["kind"], spec["attrs"], spec.get("text"), spec.get("children", []), ch, indent, ascii_only)
+    # XML allows white space before the '>' of an end tag (drawn LAST, so that earlier choices keep their meaning)
+    if body.endswith(f"</{spec['kind']}>"):
+        body = body[:-1] + ["", "", "", " ", "\n", "\t"][ch.next(6)] + ">"
+    return decl + body
 
 
 def render_plain(spec) -> str:
